@@ -299,6 +299,25 @@ func ruleNoFreshContext() check.Rule {
 								}
 							}
 						}
+						// (d') the same seed written as a tuple literal: field: lo.Tuple2[context.Context, T]{A: context.TODO(), …}
+						{
+							var n ast.Node = call
+							if kv, ok := m.Parent(p, n).(*ast.KeyValueExpr); ok && kv.Value == ast.Expr(call) {
+								n = kv
+							}
+							if cl, ok := m.Parent(p, n).(*ast.CompositeLit); ok && isCtxTuple(info.TypeOf(cl)) {
+								if kv, ok := m.Parent(p, cl).(*ast.KeyValueExpr); ok {
+									if id, ok := kv.Key.(*ast.Ident); ok {
+										if fo, ok := info.Uses[id].(*types.Var); ok && fo.IsField() {
+											if armed {
+												c.OK(key, call.Pos(), "constructor seed of field %s (reads are classified by CTX-PROVENANCE)", fo.Name())
+											}
+											return true
+										}
+									}
+								}
+							}
+						}
 						// dead helper: unexported function without any caller
 						inSC := false
 						for _, cn := range chain {
